@@ -866,7 +866,8 @@ func init() {
 	register(&vf.Check{
 		ID:        "C08",
 		Technique: "online trace checker: an executable RFC 6455 client model (state + total order of owed frames) runs in lock-step with the real Stream on a scripted transport; the wire is re-parsed by an independent parser after every step and compared with the model together with State(), Pending() and call outcomes",
-		Rule: "cases = ALL sequences of length <= 3 (quick) / <= 4 (thorough) over a 20-symbol alphabet {peer text, fragmented message, ping, pong, ping+text, close valid/empty/1-byte/invalid-code/bad-UTF-8, framing violation, transport EOF, transport error; local Write, AsyncWrite, WriteFrame(ping), Flush, AsyncFlush, Close, AsyncClose} followed by random sequences of length 5-14; the read API (NextFrame/AsyncNextFrame/NextMessage/AsyncNextMessage), payloads, close codes and transport behaviour (inline/deferred, partial writes) are drawn from the PRNG; the transport may end after the first k bytes of a frame; an AsyncWrite may be held by the transport while AsyncClose is started; while the local Close frame is held (or a blocking Close was interrupted by would-block) State, Write, AsyncWrite and a second AsyncClose are probed; " +
+		Rule: "in a quarter of the active-state AsyncWrite steps a read is parked first, the write is held, a Ping arrives, the write is released and a second message is submitted while the Pong is held (or a 66-120 KB message is queued before the Ping arrives); " +
+			"cases = ALL sequences of length <= 3 (quick) / <= 4 (thorough) over a 20-symbol alphabet {peer text, fragmented message, ping, pong, ping+text, close valid/empty/1-byte/invalid-code/bad-UTF-8, framing violation, transport EOF, transport error; local Write, AsyncWrite, WriteFrame(ping), Flush, AsyncFlush, Close, AsyncClose} followed by random sequences of length 5-14; the read API (NextFrame/AsyncNextFrame/NextMessage/AsyncNextMessage), payloads, close codes and transport behaviour (inline/deferred, partial writes) are drawn from the PRNG; the transport may end after the first k bytes of a frame; an AsyncWrite may be held by the transport while AsyncClose is started; while the local Close frame is held (or a blocking Close was interrupted by would-block) State, Write, AsyncWrite and a second AsyncClose are probed; " +
 			"non-trivial = the sequence leaves the active state and continues for >= 2 events; distinct = distinct event sequences",
 		Assumptions: []string{
 			"a Pong for a Ping received after the client's own Close is neither required nor forbidden",
